@@ -12,7 +12,8 @@ LEVEL = 'exploration'
 RULE = ('(a) ALL token strings up to length n over a 28-token alphabet, alone and after the head `out =`; (b) for a corpus of valid specifications that '
         'covers every production: every single-token deletion, insertion and substitution from the alphabet at every position; (c) every insertion of a '
         'character that belongs to no token at every position of the corpus texts, plus the empty and blank texts; (d) all interval bound pairs from '
-        '{0,1,2,3}^2 with and without units, bound constants declared/undeclared, identifiers declared/undeclared/dotted. Oracle (one-directional): '
+        '{0,1,2,3}^2 with and without units, bound constants declared/undeclared, identifiers declared/undeclared/dotted; every token string is presented '
+        'twice, with single blanks and with no white space around brackets, commas, colons and semicolons. Oracle (one-directional): '
         'parse() returns => the token string is derivable from the grammar (Earley recogniser over the productions of the .g4 files), no character was '
         'skipped, 0 <= begin <= end, bound constants declared, and a first evaluation with data for every identifier returns or raises RTAMTException; '
         'in every other case the only admissible outcome is RTAMTException; every call runs under a wall-clock limit. non-trivial = accepted string, or '
@@ -175,10 +176,27 @@ def shards(tier):
 LITERALS = ['0', '7', '10', '1_000', '1__0', '0x10', '0X1f', '0xA_b', '0b11', '0B1_0', '1.5', '5.', '.5', '1e1', '1E+2', '1.5e-1', '.5e1', '1_0.2_5', '2e0']
 
 
+SOLO = ('(', ')', '[', ']', ',', ':', ';')     # tokens that never merge with a neighbour: white space around them is optional
+
+
+def glued(words):
+    """the same token string written with no white space around brackets, commas, colons and semicolons"""
+    out = ''
+    for i, w in enumerate(words):
+        if i and not (w in SOLO or words[i - 1] in SOLO):
+            out += ' '
+        out += w
+    return out
+
+
 def run_shard(shard, tier, res):
     mod = sys.modules[__name__]
 
     def one(words, text=None, skipped=False, tag='strings'):
+        if text is None and tag != 'glued':
+            g = glued(words)
+            if g != ' '.join(words):
+                one(words, text=g, tag='glued')      # white space is not part of the language: same verdict expected
         res.evaluations += 1
         case = {'words': list(words), 'text': text, 'skipped': skipped}
         msg, cls = judge_words(list(words), text, skipped)
